@@ -50,7 +50,7 @@ def mutate(rng, toks, defs):
 
 
 RAW_BAD = ["A : \"b\" ; /* B : C ;", "A : \"\\q\" ;", "a : 'ab' ;", "a : '' ;", "A : \"b ;", "A : `b ;", "A : b << x ;", "a : '\\400' ;", "a : '\\uD800' ;",
-           "a : 'x' ; \x00", "a : '\xff' ;", "A : : b ;", "A : b | ( b ;", "A : b ; ;", "A : b", "A b ;", ": A b ;", "a : 'x' -- 'z' ;",
+           "a : 'x' ; \x00", "a : '\xff' ;", "A : \"x\x80y\" ;", "a : 'x' ; /* \x80 */", "a : '\x80' ;", "A : \"\xc0\x80\" ;", "a : 'x' ; // \x81", "A : : b ;", "A : b | ( b ;", "A : b ; ;", "A : b", "A b ;", ": A b ;", "a : 'x' -- 'z' ;",
            "A : b | ;", "A : ;", "A : B ;", "a : _x ;", "a : 'x' ; a : 'y' ;", "!a : 'x' ; !a : 'y' ;", "_a : 'x' ; _a : 'y' ; b : _a ;"]
 
 
@@ -89,7 +89,7 @@ def run(tier):
                 txt = " ".join(t2) + "\n"
                 cases.append((kind, b.add(None, flags=["-a"], text=txt), ill, txt))
         for raw in RAW_BAD:
-            cases.append(("hand", b.add(None, flags=["-a"], text=raw.encode("latin1") if "\xff" in raw else raw), True, raw))
+            cases.append(("hand", b.add(None, flags=["-a"], text=raw.encode("latin1") if any(ord(ch) > 0x7f for ch in raw) else raw), True, raw))
         b.generate()
         # oracle: the real scanner's token types + error count, and membership in L(ebnf) by Earley
         srcs = [b.items[i]["text"] for _, i, _, _ in cases]
@@ -112,8 +112,10 @@ def run(tier):
             stats["by_kind"][kind] = stats["by_kind"].get(kind, 0) + 1
             if kind == "base":
                 stats["base"] += 1
-                if it["rc"] != 0 or it["hang"]:
-                    ck.violation("a well-formed grammar was rejected (rc=%s): %s" % (it["rc"], (it["out"] + it["err"])[-300:]), {"bnf": txt})
+                # C14 is about rejection only; a base grammar may legitimately be refused (accept/reduce clash, C04)
+                stats["base_refused"] = stats.get("base_refused", 0) + (it["rc"] != 0)
+                if it["hang"]:
+                    ck.violation("gocc did not terminate on a well-formed grammar", {"bnf": txt})
                 continue
             stats["mutants"] += 1
             stats["lexical_errors"] += errs > 0 or illegal
